@@ -3,6 +3,7 @@
    definition here.  Definitions only -- no proofs live under model/.  Nothing is totalised by a
    default: an operation that raises in Python answers `Crash K_...`. *)
 From RichModel Require Import Prelude Ratio.
+From Coq Require Decimal.
 
 (* ---- outcome of one pass of a loop body (the "flag" of early return / break) ---- *)
 Inductive lctl (R S : Type) : Type :=
@@ -127,3 +128,20 @@ Definition py_unpack3 {A} (l : list A) : res (A * A * A) :=
   match l with [a; b; c] => Ok (a, b, c) | _ => Crash K_ValueError end.
 Definition py_unpack4 {A} (l : list A) : res (A * A * A * A) :=
   match l with [a; b; c; d] => Ok (a, b, c, d) | _ => Crash K_ValueError end.
+
+(* str(int): decimal digits as code points *)
+Fixpoint t2_uint_digits (u : Decimal.uint) : list Z :=
+  match u with
+  | Decimal.Nil => []
+  | Decimal.D0 u => 48 :: t2_uint_digits u | Decimal.D1 u => 49 :: t2_uint_digits u
+  | Decimal.D2 u => 50 :: t2_uint_digits u | Decimal.D3 u => 51 :: t2_uint_digits u
+  | Decimal.D4 u => 52 :: t2_uint_digits u | Decimal.D5 u => 53 :: t2_uint_digits u
+  | Decimal.D6 u => 54 :: t2_uint_digits u | Decimal.D7 u => 55 :: t2_uint_digits u
+  | Decimal.D8 u => 56 :: t2_uint_digits u | Decimal.D9 u => 57 :: t2_uint_digits u
+  end.
+Definition py_str_int (z : Z) : list Z :=
+  match z with
+  | Z0 => [48]
+  | Zpos p => t2_uint_digits (Pos.to_uint p)
+  | Zneg p => 45 :: t2_uint_digits (Pos.to_uint p)
+  end.
